@@ -197,6 +197,21 @@ PROPS['C14'] = dict(
     level_text='Bounded symbolic model checking of value semantics: after a history of const operations with symbolic arguments every operand must show its snapshot state (window, coefficients, grid points, identity of the shared grid storage) and must answer evaluation/predicates/integration exactly like an object freshly constructed from that state, at an independent symbolic abscissa - the solver chooses the pair (x1, x2) that would expose hidden mutable state. Copies, earlier results and failed in-place updates are checked the same way.',
     level_note='Exact reals; orders, windows, grid sizes and the operation sequences are fixed/enumerated to the bound, arguments symbolic; trusted: g++, libz3, sym.h/harness.h, oracle in C14_value.cpp.')
 
+PROPS['C10'] = dict(
+    engine='A', technique='symbolic-scalar execution of operation sequences over a pool of real objects from every valid shape; class invariants checked on every live object after every step (inductive step + bounded sequences)',
+    harnesses=[dict(name='C10_invariants', src='C10_invariants.cpp',
+                    defs=dict(quick=['-DMAXN=3', '-DSEQLEN=2'], thorough=['-DMAXN=4', '-DSEQLEN=2']),
+                    functions=['Spline constructors', 'Spline copy/move construction and assignment (incl. self-assignment, self-move, std::swap)', 'Spline::operator=(lower order)', 'Spline::setData',
+                               'Spline::operator+=,-=,*=,/=', 'Spline::operator+,*', 'operator*(Operator,Spline)', 'linearCombination', 'Support constructors/copy/move/move-assignment',
+                               'Support::createEmpty/createWholeGrid/calcUnion/calcIntersection', 'Grid copy construction/assignment', 'Spline::checkValidity/Support::checkValidity/Grid::checkValidity (BSPLINE_ADD_TEST_CHECKS)'])],
+    bounds=dict(quick='pool of 3 order-1 splines + a lower-order and a foreign-grid spline; every pair of windows (empty, point-like, all s<e<=n) on grids of 2..3 symbolic points; every sequence of 1 or 2 operations out of 18 (copy/move/self-move/self-copy assignment, +=, -=, *= by a symbolic scalar that may be zero, /=, lower-order assignment, results of + / operator application / linearCombination assigned, move-construct-and-destroy, throwing += on a different grid, throwing construction, reuse of moved-from objects, std::swap), followed by combining and reassigning every object; Support-level copies/moves/self-moves/algebra for every window pair on grids of 2..4 points',
+                thorough='grids of 2..4 points for the spline pool, 2..5 for supports'),
+    outside='sequences longer than 2 operations before the final reuse step (the step is checked from every valid shape, which is the inductive argument for longer histories); pools of other orders; the 64-bit index space of Support is covered by C13 (Engine B)',
+    assumptions=['grid points strictly increasing reals', 'exact real arithmetic'],
+    trusted=A_TRUST,
+    level_text='Bounded symbolic model checking of the invariants: starting from every valid shape with symbolic contents, each public operation (and each pair of operations) is executed on the real classes and every live object - targets, operands, moved-from objects, objects that saw a throwing call - must satisfy window validity, one coefficient array per interval and an unchanged strictly increasing grid; moved-from objects must be interval-free and are then reused.',
+    level_note='Exact reals; shapes, operations and sequence length enumerated to the bound, scalars symbolic (zero included via solver forks); trusted: g++, libz3, sym.h/harness.h, invariant predicate in C10_invariants.cpp.')
+
 _NOT_BUILT = 'check not built yet in this round (planned, see DESIGN.md section 5)'
 NOT_APPLICABLE = {
     'C16': 'floating-point forward-error bound: bit-precise FP or (1+delta) NRA encodings of even the smallest instance return unknown/timeout on every installed solver (DESIGN.md section 7)',
